@@ -104,6 +104,43 @@ impl Corpus for Newtype {
     }
 }
 
+/// derived newtypes over fixed-width primitives: transparent on the wire, so `Vec<NtX>` is `vec natN` and
+/// takes the decoder's primitive-vector path with a derived (non-primitive) element visitor
+macro_rules! newtype_prim {
+    ($name:ident, $inner:ty) => {
+        #[derive(CandidType, Deserialize, Debug, Clone)]
+        pub struct $name(pub $inner);
+        impl Corpus for $name {
+            fn cname() -> String {
+                stringify!($name).into()
+            }
+            fn gen(rng: &mut Rng, fuel: &mut i64) -> Self {
+                $name(<$inner>::gen(rng, fuel))
+            }
+            fn model(&self) -> RValue {
+                self.0.model()
+            }
+            fn body(tb: &mut TB) -> RType {
+                <$inner>::body(tb)
+            }
+            fn same(&self, o: &Self) -> bool {
+                self.0.same(&o.0)
+            }
+            fn kind() -> &'static str {
+                "newtype"
+            }
+        }
+    };
+}
+newtype_prim!(NtBool, bool);
+newtype_prim!(NtU8, u8);
+newtype_prim!(NtI16, i16);
+newtype_prim!(NtU32, u32);
+newtype_prim!(NtU64, u64);
+newtype_prim!(NtF64, f64);
+newtype_prim!(NtNat, Nat);
+newtype_prim!(NtText, String);
+
 #[derive(CandidType, Deserialize, Debug, Clone, PartialEq)]
 pub struct UnitS;
 impl Corpus for UnitS {
